@@ -166,7 +166,7 @@ theorem transitionAfter_split (s : Streams) (k : Nat) (b : Bool) :
   simp only [Bool.false_and, Bool.false_eq_true, if_false, hst, hs1]
 
 /-- the tail of `EvT`'s `resetPop` -/
-theorem transitionAfter_false_ev (s : Streams) (k : Nat) : EvB ρ s (s.transitionAfter k false) :=
+theorem transitionAfter_false_ev (s : Streams) (k : Nat) : Ev s (s.transitionAfter k false) :=
   transitionAfter_ev s k false (fun h => Bool.noConfusion h)
 
 theorem EvT.keysOK {s s' : Streams} (h : EvT s s') : KeysOK s → KeysOK s' := by
